@@ -3034,7 +3034,9 @@ class Taylor(Output):
                 crmseLabel = "CRMSE"
                 minCrmseLabel = "Min CRMSE"
 
-            maxstd = max(maxstd, max(std))
+            # Slices where the observations do not vary have no (finite) normalized standard deviation
+            if np.any(np.isfinite(std)):
+                maxstd = max(maxstd, np.max(std[np.isfinite(std)]))
             ang = np.arccos(corr)
             x = std * np.cos(ang)
             y = std * np.sin(ang)
